@@ -1067,7 +1067,8 @@ func c26Sequences(r *mc.R, st *c26Stats) {
 			c26GasGrid(r, st, sh.f, pre, d, func(gas uint64) *refevm.Tx {
 				return c26CallTx(gas, 1, []byte{0xde, 0xad, 0xbe, 0xef})
 			})
-			if len(seq) < maxLen {
+			// nothing after a unit that always ends the frame can execute: such extensions repeat the prefix
+			if len(seq) < maxLen && !c26Terminal(us[seq[len(seq)-1]].name) {
 				for u := range us {
 					rec(append(append([]int{}, seq...), u))
 				}
@@ -1075,6 +1076,17 @@ func c26Sequences(r *mc.R, st *c26Stats) {
 		}
 		rec([]int{sh.first})
 	})
+}
+
+// c26Terminal: units after which the frame never continues (STOP, REVERT, INVALID, SELFDESTRUCT, an always
+// out-of-bounds RETURNDATACOPY).
+func c26Terminal(name string) bool {
+	for _, p := range []string{"STOP", "REVERT(", "INVALID", "SELFDESTRUCT(", "RETURNDATACOPY(oob)"} {
+		if strings.HasPrefix(name, p) {
+			return true
+		}
+	}
+	return false
 }
 
 // ---------------------------------------------------------------------------
@@ -1177,7 +1189,7 @@ func c26Warm(r *mc.R, st *c26Stats) {
 				t.AccessList = al
 				return t
 			})
-			if len(seq) < maxLen {
+			if len(seq) < maxLen && !c26Terminal(us[seq[len(seq)-1]].name) {
 				for u := range us {
 					rec(append(append([]int{}, seq...), u))
 				}
@@ -1435,8 +1447,8 @@ func c26SetCode(r *mc.R, st *c26Stats) {
 			ra, ga := build(seq)
 			for ri, rc := range rcpts {
 				for _, value := range []int64{0, 1} {
-					if r.Quick() && len(seq) > 1 && (value != 0 || ri > 1) {
-						continue // quick: two-tuple lists only with recipients B5 and X1, value 0
+					if len(seq) > 1 && len(seq) == maxLen && (value != 0 || ri > 1) {
+						continue // longest lists of the tier: only recipients B5 and X1, value 0
 					}
 					to := rc.to
 					c26GasGrid(r, st, sh.f, pre, map[string]any{"part": "setcode", "x1": sh.v.name, "auths": names, "to": rc.name, "value": value}, func(gas uint64) *refevm.Tx {
